@@ -679,6 +679,61 @@ func c3IntegerChain(c *Ctx, cname, slot string, l fieldLit, e ast.Expr, arm *arm
 		// val.UnixNano(): decided by R3.5
 		_ = call
 		return
+	} else if fn := c.Func(ZapPath, l.fd.Name.Name); fn != nil && len(fn.Params) == 2 && (l.ftype.Name() == "Float64Type" || l.ftype.Name() == "Float32Type") {
+		// the bits are taken by a helper of the module: by path exploration (the helper inline), on every path the
+		// Integer slot holds the IEEE bits of the parameter itself - of nothing computed from it
+		bitsFn := map[string]string{"Float64Type": "Float64bits", "Float32Type": "Float32bits"}[l.ftype.Name()]
+		var bad []string
+		seqs, trunc := ConcPaths(fn, ConcCfg{
+			InlineAny: func(h *ssa.Function) bool { return curProgRoot(h) && h.Parent() == nil },
+			Event: func(in ssa.Instruction, st *ConcState) string {
+				r, ok := in.(*ssa.Return)
+				if !ok || len(r.Results) != 1 || len(st.cfg.stackDepth()) != 0 {
+					return ""
+				}
+				_, _, v := st.FieldOf(r.Results[0], "Integer")
+				if v == nil {
+					return "ret(?)"
+				}
+				for k := 0; k < 8; k++ {
+					switch x := v.(type) {
+					case *ssa.Convert:
+						v = x.X
+						continue
+					case *ssa.ChangeType:
+						v = x.X
+						continue
+					}
+					if nx := st.Step(v); nx != nil {
+						v = nx
+						continue
+					}
+					break
+				}
+				if cl, isCall := v.(*ssa.Call); isCall && IsCallTo(cl, "math."+bitsFn) {
+					a := cl.Call.Args[0]
+					for k := 0; k < 8; k++ {
+						if nx := st.Step(a); nx != nil {
+							a = nx
+							continue
+						}
+						break
+					}
+					if a == ssa.Value(fn.Params[1]) {
+						return "ret(bits-of-param)"
+					}
+					return "ret(" + bitsFn + "(" + st.Desc(a) + "))"
+				}
+				return "ret(" + st.Desc(v) + ")"
+			},
+		})
+		for _, sq := range seqs {
+			if sq != "ret(bits-of-param)" {
+				bad = append(bad, sq)
+			}
+		}
+		c.Check(!trunc && len(seqs) > 0 && len(bad) == 0, "R3.1", cname, "integer/"+slot, e.Pos(), "on every path (helpers inline) the Integer slot holds math.%s of the parameter itself - every bit pattern, NaN payloads and signs included, reaches the encoder: %v", bitsFn, uniqSorted(bad))
+		return
 	} else {
 		c.Und("R3.1", cname, "integer/"+slot, e.Pos(), "Integer slot expression %s does not start from a parameter", types.ExprString(e))
 		return
